@@ -52,6 +52,16 @@ func genC01(t *core.Tape, tier string) *Scenario {
 		// concurrently
 		if t.Bool(1, 3, "concurrent") {
 			p.Task = i
+		} else if p.Kind == KUnary {
+			// the caller re-uses the Request object of an earlier unary call for
+			// a new message (a retry loop that keeps its Request)
+			for _, q := range sc.Calls {
+				if q.Kind == KUnary && q.Task == 0 && t.Bool(1, 2, "resend.request") {
+					p.ReuseRequestOf = q.ID
+					sc.Notes["request_object_resent"]++
+					break
+				}
+			}
 		}
 		sc.Calls = append(sc.Calls, p)
 	}
